@@ -14,7 +14,7 @@ EXPLANATION = (
     "skip, both absolute-value rows for non-ignored edges and err = 0 for ignored ones, all variables with lower bound 0 (non-negativity), "
     "objective sum scale*err + sparsity_lambda * source outflow, and the epsilon row of the second model uses the same expression as the "
     "first objective; (R2) same graph: the corrected graph is a deep copy of a deep copy of the input that only receives item assignments "
-    "of flow_attr; (R3) cache typestate: no cached solution survives the lowering of the solved flag / re-creation of the solver.  NOT "
+    "of flow_attr; (R3) cache typestate: no cached solution survives the lowering of the solved flag / re-creation of the solver; (R4) the constructor never writes to the caller's ignore list or its shared default.  NOT "
     "decided: optimality; the (1+eps) guarantee as a numeric statement."
 )
 DECIDED = ["formulation (conservation, absolute deviation, non-negativity, objective, epsilon budget)", "corrected graph is a copy with only flow values changed",
@@ -132,3 +132,6 @@ def check(prog: Program, rep):
     same_graph(prog, rep, "C16.R2")
     rep.rule("C16.R3", "cache typestate", floor=5)
     cache_typestate(prog, rep, "C16.R3")
+    rep.rule("C16.R4", "the ignore set derives only from this call's arguments (no write to caller objects or shared defaults)", floor=2)
+    from rules.c18 import class_inputs_not_mutated
+    class_inputs_not_mutated(prog, rep, "C16.R4", ["MinErrorFlow"])
